@@ -863,6 +863,12 @@ pub fn main() {
             }
         }
     }
+    // a component whose storage has no default: only `register_with_storage` can create it, and
+    // setting up / dispatching systems over it must use the registered storage as it is
+    shapes_checked += 1;
+    if let Some(m) = no_default_storage() {
+        findings.push(Finding { key: "setup|storage-without-default".into(), oracle: m, replay: json!({"engine": "mc-disp", "part": "a", "shape": "storage without a default"}) });
+    }
     for (name, _r, _w, bad) in kinds_part_a() {
         shapes_checked += 1;
         if let Some(m) = bad {
@@ -968,6 +974,75 @@ pub fn main() {
         wall_s: t0.elapsed().as_secs_f64(),
     };
     conclude(&cli, ev, findings);
+}
+
+/// A storage kind that cannot be default-constructed (it wraps the plain vector storage).
+pub struct NoDefaultStorage<T>(VecStorage<T>);
+
+impl<T> specs::storage::TryDefault for NoDefaultStorage<T> {
+    fn try_default() -> Result<Self, String> {
+        Err("NoDefaultStorage needs an explicit constructor".into())
+    }
+}
+
+impl<T> specs::storage::UnprotectedStorage<T> for NoDefaultStorage<T> {
+    type AccessMut<'a> = &'a mut T where T: 'a;
+
+    unsafe fn clean<B>(&mut self, has: B)
+    where
+        B: specs::hibitset::BitSetLike,
+    {
+        unsafe { self.0.clean(has) }
+    }
+    unsafe fn get(&self, id: u32) -> &T {
+        unsafe { self.0.get(id) }
+    }
+    unsafe fn get_mut(&mut self, id: u32) -> &mut T {
+        unsafe { self.0.get_mut(id) }
+    }
+    unsafe fn insert(&mut self, id: u32, v: T) {
+        unsafe { self.0.insert(id, v) }
+    }
+    unsafe fn remove(&mut self, id: u32) -> T {
+        unsafe { self.0.remove(id) }
+    }
+}
+
+pub struct ND(pub u32);
+impl Component for ND {
+    type Storage = NoDefaultStorage<Self>;
+}
+
+struct NdSys(Arc<Mutex<Vec<u32>>>);
+impl<'a> System<'a> for NdSys {
+    type SystemData = (ReadStorage<'a, ND>, WriteStorage<'a, X>);
+    fn run(&mut self, (nd, _x): Self::SystemData) {
+        self.0.lock().unwrap().extend((&nd).join().map(|c| c.0));
+    }
+}
+
+fn no_default_storage() -> Option<String> {
+    let r = catch(|| -> Option<String> {
+        let mut w = new_world();
+        w.register_with_storage::<_, ND>(|| NoDefaultStorage(VecStorage::default()));
+        let e = w.create_entity().with(ND(5)).build();
+        <ReadStorage<ND> as SystemData>::setup(&mut w);
+        <WriteStorage<ND> as SystemData>::setup(&mut w);
+        let seen = Arc::new(Mutex::new(vec![]));
+        let mut d = DispatcherBuilder::new().with_pool(crate::util::shared_pool()).with(NdSys(seen.clone()), "nd", &[]).build();
+        d.setup(&mut w);
+        d.dispatch(&w);
+        d.dispatch(&w);
+        let got = seen.lock().unwrap().clone();
+        if got != vec![5, 5] || w.read_storage::<ND>().get(e).map(|c| c.0) != Some(5) {
+            return Some(format!("setup: a system over a storage registered with register_with_storage saw {:?} in two dispatches, expected [5, 5]", got));
+        }
+        None
+    });
+    match r {
+        Ok(x) => x,
+        Err(m) => Some(format!("setup: setting up / dispatching a system over a component whose storage has no default (registered through register_with_storage) panicked: {}", m.lines().next().unwrap_or(""))),
+    }
 }
 
 type PartA = (String, Vec<&'static str>, Vec<&'static str>, Option<String>);
